@@ -159,6 +159,45 @@ func genTable(rng *rand.Rand, kind string) *Table {
 			}
 		}
 	}
+	if nkey := len(pkIdx); (nkey >= 2 || (len(t.PK) == 0 && ncols >= 2)) && n > 0 && rng.Intn(2) == 0 {
+		// two rows whose key cells, written one after the other without their boundaries, are the same bytes:
+		// ("q", "rs", ...) and ("qr", "s", ...); nothing else sorts between them
+		var kc []int
+		for j := 0; j < ncols; j++ {
+			if pkIdx[j] || len(t.PK) == 0 {
+				kc = append(kc, j)
+			}
+		}
+		// in KEY order (the order the key was declared in), not column order
+		if len(t.PK) > 0 {
+			kc = kc[:0]
+			for _, p := range t.PK {
+				for j, c := range t.Cols {
+					if c == p {
+						kc = append(kc, j)
+					}
+				}
+			}
+		}
+		for _, cells := range [][2]string{{"q", "rs"}, {"qr", "s"}} {
+			row := make([]string, ncols)
+			for j := range row {
+				row[j] = randCell(rng)
+			}
+			for x, j := range kc {
+				switch x {
+				case 0:
+					row[j] = cells[0]
+				case 1:
+					row[j] = cells[1]
+				default:
+					row[j] = "t"
+				}
+			}
+			at := rng.Intn(len(t.Rows) + 1)
+			t.Rows = append(t.Rows[:at], append([][]string{row}, t.Rows[at:]...)...)
+		}
+	}
 	if kind == "big" && n > 0 {
 		// big cells: at the limit, and rows whose encoding crosses 64 KiB with cells after the crossing
 		r := rng.Intn(len(t.Rows))
